@@ -238,7 +238,8 @@ def s2c_load(ctx, maxlen):
 # ---- C2S: generated texts -----------------------------------------------------------------------------
 
 KEYS = ["TITLE", "title", "Artist", "ATTACKS", "attacks", "DISPLAYBPM", "NOTES", "notes", "Notes",
-        "VERSION", "version", "Version", "NOTEDATA", "notedata", "STEPSTYPE", "BPMS", "X1", "猫", "NOTES2", "FREEZES"]
+        "VERSION", "version", "Version", "NOTEDATA", "notedata", "STEPSTYPE", "BPMS", "X1", "猫", "NOTES2", "FREEZES",
+        "MUSIC", "Banner", "BACKGROUND", "JACKET", "CDTITLE", "LYRICSPATH", "ANIMATIONS", "STOPS", "BGCHANGES", "OFFSET"]
 
 
 def gen_param(rng):
